@@ -452,6 +452,13 @@ def check_many(rep, funcs):
                         for y in walk(c):
                             if tname(y) == "PrimaryCmpNode" and y.operator in ("!=", ">", "<") and ename in (getattr(unwrap(y.operand1), "name", None), getattr(unwrap(y.operand2), "name", None)):
                                 guarded = True
+        # a loop that compares heads with the emitted value but advances in a form not recognised here (a cursor written
+        # through a temporary, cached heads ...) is a rewrite: not decided by this syntactic rule
+        other_loops = [x for x in walk(loop.body) if tname(x) in ("ForInStatNode", "ForFromStatNode")
+                       and any(tname(y) == "PrimaryCmpNode" and y.operator == "==" and ename in (getattr(unwrap(y.operand1), "name", None), getattr(unwrap(y.operand2), "name", None)) for y in walk(x.body))]
+        if not (adv_all or guarded) and other_loops:
+            rep.undecided("R-C08-f", "%s@%d" % (where, em.pos[1]), "duplicate suppression in the k-way merge", "a loop compares heads with the emitted value but its advance is not in a recognised form")
+            return n
         rep.check(adv_all or guarded, "R-C08-f", "%s@%d" % (where, em.pos[1]), "duplicate suppression in the k-way merge",
                   "all arrays whose head equals the minimum are advanced" if adv_all else "emission guarded by the previously emitted value",
                   "only the array holding the minimum is advanced and the emission is unguarded: a value present in two arrays is emitted twice",
